@@ -850,6 +850,9 @@ func TestC13Prune(t *testing.T) {
 			r.Case(fmt.Sprintf("prune|%d|%s|%s", i, c.snapPairs(), q06IntPairs(hist)), len(hist) > 0)
 		})
 	}
+	// whole message lives: reports in any order, evidence in between, estimates, election, signatures, other
+	// messages, rotation at any point (c13_prune_hist_test.go)
+	c13PruneLives(t, r, fx, r.N/2)
 }
 
 func q06LibEvidence(c *q06Case, id uint64, evs [][2]string) []libcons.Evidence {
